@@ -262,3 +262,35 @@ Qed.
     applies to it (hypothesis satisfiable). *)
 Lemma exact_alg_total : infix_total exact_alg.
 Proof. intros o x y. cbn. discriminate. Qed.
+
+(** Structural equality decides equality, given that literal equality does. *)
+Lemma expr_eqb_sound {L : Type} (leqb : L -> L -> bool) :
+  (forall x y, leqb x y = true -> x = y) ->
+  forall a b : expr L, expr_eqb leqb a b = true -> a = b.
+Proof.
+  intros Hl.
+  induction a as [c | | x | n i | f a IHa | o a IHa | l IHl o r IHr]; intros b H;
+    destruct b; cbn [expr_eqb] in H; try discriminate.
+  - f_equal. apply Hl. exact H.
+  - reflexivity.
+  - apply N.eqb_eq in H. subst. reflexivity.
+  - apply andb_true_iff in H. destruct H as [H1 H2].
+    apply N.eqb_eq in H1. apply N.eqb_eq in H2. subst. reflexivity.
+  - apply andb_true_iff in H. destruct H as [H1 H2].
+    destruct f, f0; try discriminate; f_equal; apply IHa; exact H2.
+  - apply andb_true_iff in H. destruct H as [H1 H2].
+    destruct o, o0; try discriminate; f_equal; apply IHa; exact H2.
+  - apply andb_true_iff in H. destruct H as [H12 H3].
+    apply andb_true_iff in H12. destruct H12 as [H1 H2].
+    rewrite (IHl _ H2), (IHr _ H3).
+    destruct o, o0; try discriminate; reflexivity.
+Qed.
+
+Lemma list_eqb_sound {X : Type} (eqb : X -> X -> bool) :
+  (forall x y, eqb x y = true -> x = y) ->
+  forall a b : list X, list_eqb eqb a b = true -> a = b.
+Proof.
+  intros He. induction a as [|x a IH]; intros [|y b] H; cbn [list_eqb] in H; try discriminate.
+  - reflexivity.
+  - apply andb_true_iff in H. destruct H as [H1 H2]. f_equal; [apply He; exact H1 | apply IH; exact H2].
+Qed.
